@@ -39,6 +39,9 @@ def _code_objects(module):
         cands = [obj]
         if isinstance(obj, type):
             cands = list(vars(obj).values())
+        for c in list(cands):
+            if isinstance(c, property):
+                cands.extend(x for x in (c.fget, c.fset, c.fdel) if x is not None)
         for c in cands:
             f = getattr(c, "__func__", c)
             f = getattr(f, "__wrapped__", f)
